@@ -4,7 +4,7 @@ CONSTANTS
   OpSet = "small"
   GenLen = 4
   GenOps = "small"
-  NRand = 3000
+  NRand = 2000
   ReqFull = FALSE
 INIT GenInit
 NEXT GenNext
